@@ -405,3 +405,42 @@ Proof.
       destruct (day_entries u m date total l); cbn; auto. apply perm_swap.
   - eapply entries_equiv_trans; eassumption.
 Qed.
+
+(* ---------------------------------------------------------------- 7. report totals *)
+From Coq Require Import Setoid Morphisms.
+From Knut Require Import Proofs.ReportSum.
+Open Scope Q_scope.
+
+(* a booking into the report: Report.Insert(date, account, commodity, amount) *)
+Definition booking_ins := (option Z * account * commodity * dec)%type.
+
+Definition insert_all (l : list booking_ins) (r : report) : report :=
+  fold_left (fun r x => let '(d, a, c, v) := x in report_insert r d a c v) l r.
+
+Definition contrib_sum (f : rkey -> rkey) (k' : rkey) (l : list booking_ins) : Q :=
+  fold_right (fun x acc => (let '(d, a, c, v) := x in contrib f k' (d, Some c) v) + acc) 0 l.
+
+Lemma rsum_insert_all f k' l : forall r, rsum f k' (insert_all l r) == rsum f k' r + contrib_sum f k' l.
+Proof.
+  induction l as [|[[[d a] c] v] l IH]; intros r; cbn [insert_all fold_left contrib_sum fold_right].
+  - ring.
+  - change (fold_left _ l ?r0) with (insert_all l r0). rewrite IH, rsum_insert.
+    change (fold_right _ 0 l) with (contrib_sum f k' l). ring.
+Qed.
+
+Lemma contrib_sum_perm f k' l1 l2 : Permutation l1 l2 -> contrib_sum f k' l1 == contrib_sum f k' l2.
+Proof.
+  intros P. induction P as [|x l l' P IH|x y l|l l' l'' P1 IH1 P2 IH2]; cbn [contrib_sum fold_right].
+  - reflexivity.
+  - change (fold_right _ 0 l) with (contrib_sum f k' l). change (fold_right _ 0 l') with (contrib_sum f k' l').
+    rewrite IH. reflexivity.
+  - ring.
+  - rewrite IH1. exact IH2.
+Qed.
+
+(* every total of the report (any cell: f maps the keys of the bookings to the cell's key) is
+   the same for every order in which the bookings are inserted -- in particular for every
+   order of the adjustment and closing transactions of sections 2 and 3 *)
+Theorem report_totals_order_free f k' l1 l2 r :
+  Permutation l1 l2 -> rsum f k' (insert_all l1 r) == rsum f k' (insert_all l2 r).
+Proof. intros P. rewrite !rsum_insert_all, (contrib_sum_perm f k' l1 l2 P). reflexivity. Qed.
